@@ -16,7 +16,7 @@ TRUSTED = [
 ]
 RULE = ("for r in 0..3 and each request unit of the exchange (Valve info / players / rules, Unreal 2 info / mutators+rules / players under Try and Enforce, the whole exchange for Quake, GameSpy 1/2/3, JC2-MP, Mindustry, Bedrock) "
         "every aligned fault vector of j timeout-class attempts (no reply, failed send, challenge then silence, some parts of a multi-packet reply then silence, handshake answered then failed data request) followed by a valid or malformed "
-        "reply, j <= r+1, injected at that unit while the others answer at once; non-trivial = at least one fault injected; distinct by case bytes")
+        "reply, j <= r+1, injected at that unit while the others answer at once, and for Valve also 1..r+1 faults at two or at all three units of the same query; non-trivial = at least one fault injected; distinct by case bytes")
 
 
 def gen_cases(tier, rng):
@@ -67,6 +67,28 @@ def gen_cases(tier, rng):
                     cases.append({"id": "fault/%d/r%d/u%d/%d" % (seed, r, unit, vi),
                                   "hex": assemble(with_ts(full["settings"], ts), evs, full["bz"], fails),
                                   "meta": {"stream": "valve-faults", "expected": exp, "vec": vec, "r": r, "unit": unit, "attempts": made,
+                                           "events": [None if e is None else e.hex() for e in evs], "tags": {"e": full["tags"]["e"]}}})
+            # faults at two or three request positions of the same query: every unit has its own r+1 attempts
+            if r >= 1:
+                combos = []
+                for units in ((0, 1), (0, 2), (1, 2), (0, 1, 2)):
+                    for tk in ("silent", "sendfail"):
+                        for js in itertools.product(range(1, r + 2), repeat=len(units)):
+                            if js[0] > r and units[0] == 0:
+                                continue       # the info request exhausted: nothing follows
+                            combos.append((units, tk, js))
+                for ci, (units, tk, js) in enumerate(combos):
+                    vectors = [["valid"], ["valid"], ["valid"]]
+                    outs = {}
+                    for u, j in zip(units, js):
+                        vectors[u] = [tk] * j + (["valid"] if j <= r else [])
+                        outs[u] = unit_outcome(vectors[u], r)[0]
+                    evs, fails = build_fault_script(groups, vectors)
+                    present = (1 if outs.get(1, "ok") == "ok" else 0, 1 if outs.get(2, "ok") == "ok" else 0)
+                    cases.append({"id": "fault2/%d/r%d/%d" % (seed, r, ci),
+                                  "hex": assemble(with_ts(full["settings"], ts), evs, full["bz"], fails),
+                                  "meta": {"stream": "valve-faults-several-units", "expected": var[present]["expected"], "vec": [vectors[u] for u in units], "r": r,
+                                           "unit": list(units), "attempts": sum(len(v) for v in vectors),
                                            "events": [None if e is None else e.hex() for e in evs], "tags": {"e": full["tags"]["e"]}}})
     # Quake: one request unit
     qs = quake_specs([(rng.next() >> 1, 1 + (i % 3)) for i in range(9 if tier == "quick" else 60)])
@@ -298,6 +320,15 @@ def oracle(case, impl, side):
         n = sum(1 for x in sends if x == first)
         if n != m["attempts"] or n > m["r"] + 1:
             return ("retry-attempts", "%s fault vector %s at unit %d with r=%d: %d attempts, expected %d" % (m["stream"], m["vec"], m["unit"], m["r"], n, m["attempts"]))
+        return None
+    if m["stream"] == "valve-faults-several-units":
+        if res != m["expected"]:
+            return ("retry-result", "fault vectors %s at units %s with r=%d: got %s expected %s" % (m["vec"], m["unit"], m["r"], res[:200], m["expected"][:200]))
+        evs = [None if e is None else bytes.fromhex(e) for e in m["events"]]
+        for u, vec in zip(m["unit"], m["vec"]):
+            n = count_attempts(m["tags"], evs, trace, KINDS[u])
+            if n != len(vec) or n > m["r"] + 1:
+                return ("retry-attempts", "fault vectors %s at units %s with r=%d: unit %d got %d attempts, expected %d" % (m["vec"], m["unit"], m["r"], u, n, len(vec)))
         return None
     if res != m["expected"]:
         return ("retry-result", "fault vector %s at unit %d with r=%d: got %s expected %s" % (m["vec"], m["unit"], m["r"], res[:200], m["expected"][:200]))
